@@ -533,7 +533,9 @@ pub fn draw_archive(rng: &mut Rng, size: SizeClass, ic: u8) -> Archive {
             let n = rng.range(6000, 30_000);
             let mut id = rng.below(1000);
             for _ in 0..n {
-                id += 1 + rng.log_range(1, 1 << 20);
+                // mostly irregular gaps; a third of the ids follow their predecessor directly, so
+                // ids can be contiguous across leaf-directory boundaries
+                id += if rng.chance(33) { 1 } else { 1 + rng.log_range(1, 1 << 20) };
                 let len = 1 + rng.below(40) as u32;
                 tiles.push(Tile { id, c: Cont { k: 0, seed: rng.next_u64() as u32, len } });
             }
